@@ -74,6 +74,26 @@ def pure_a(repo: Repo) -> List[Ob]:
                     for st in tail.orelse:
                         if isinstance(st, ast.Assign) and "expected_base_state_types" in src(st.targets[0]):
                             problem = (st, f"the final `else` of the name resolution overwrites entries that are already classes with {src(st.value)[:40]}")
+        # (i) the operand types are taken from the keyword arguments only for the member that is defined by them (Expression)
+        reads = [x for x in walk_no_nested(up.node) if isinstance(x, ast.Subscript) and src(x.value) == "kwargs" and isinstance(x.slice, ast.Constant) and x.slice.value == "state_types"]
+        for k_, rd in enumerate(reads, 1):
+            guards = [i_ for i_ in walk_no_nested(up.node) if isinstance(i_, ast.If) and any(y is rd for b in i_.body for y in ast.walk(b))]
+            by_member = any(isinstance(c, ast.Compare) and isinstance(c.ops[0], (ast.Is, ast.Eq)) and "self" in (src(c.left), src(c.comparators[0])) and f"{en}." in src(c) for g in guards for c in ast.walk(g.test))
+            (obs.append(ok("PURE-a", up, f"types-from-kwargs-only-for-expression#{k_}", ("C15", "C17", "C03"), rd, "kwargs['state_types'] is read under `self is <the expression member>`")) if by_member else
+             obs.append(bad("PURE-a", up, f"types-from-kwargs-only-for-expression#{k_}", ("C15", "C17", "C03"), rd,
+                            "kwargs['state_types'] replaces the operand types whenever the keyword is present, not only for the expression member: a built-in composite type constructed with a stray "
+                            "`state_types` permanently changes what every operation of that type accepts")))
+        # (ii) what is stored on the member is a copy: the name resolution below writes into it element by element
+        for a_ in [x for x in walk_no_nested(up.node) if isinstance(x, ast.Assign) and any("expected_base_state_types" in src(t) and not isinstance(t, ast.Subscript) for t in x.targets)]:
+            v = a_.value
+            direct = isinstance(v, ast.Subscript) and src(v.value) == "kwargs"
+            stores = any(isinstance(x, ast.Subscript) and isinstance(x.ctx, ast.Store) and "expected_base_state_types" in src(x.value) for x in walk_no_nested(up.node))
+            if direct or (isinstance(v, ast.Name) and v.id in ("kwargs",)):
+                (obs.append(bad("PURE-a", up, "stores-a-copy", ("C15", "C16"), a_,
+                                f"`{src(a_)[:60]}` keeps the caller's own list: the element-wise name resolution that follows rewrites the caller's list, and later edits of that list change what the operation accepts")) if stores else
+                 obs.append(ok("PURE-a", up, "stores-a-copy", ("C15", "C16"), a_, "no in-place store follows")))
+            elif "kwargs" in src(v):
+                obs.append(ok("PURE-a", up, "stores-a-copy", ("C15", "C16"), a_, "the operand-type list taken from the caller is copied"))
         (obs.append(bad("PURE-a", up, "operand-type-resolution", ("C15", "C17", "C03"), problem[0],
                         problem[1] + ": from the second construction of this operation type on, the operand-kind check accepts any subsystem")) if problem else
          obs.append(ok("PURE-a", up, "operand-type-resolution", ("C15", "C17", "C03"), up.node, "resolving operand-type names leaves already resolved entries unchanged")))
@@ -231,8 +251,8 @@ def pure_b(repo: Repo) -> List[Ob]:
                 a0 = src(x.args[0]) if x.args else ""
                 kw = [k for k in x.keywords if k.arg is None]
                 args_ok = a0 in ("self.dimensions", "self._dimensions") and bool(kw) and src(kw[0].value) == "self.kwargs"
-    (obs.append(ok("PURE-b", g, "getter-rebuilds", ("C15", "C12"), g.node, "operator is rebuilt from self.dimensions and self.kwargs on every read")) if good and args_ok else
-     obs.append(bad("PURE-b", g, "getter-rebuilds", ("C15", "C12"), g.node,
+    (obs.append(ok("PURE-b", g, "getter-rebuilds", ("C15", "C12", "C03"), g.node, "operator is rebuilt from self.dimensions and self.kwargs on every read")) if good and args_ok else
+     obs.append(bad("PURE-b", g, "getter-rebuilds", ("C15", "C12", "C03"), g.node,
                     "Operation.operator can return without calling compute_operator(self.dimensions, **self.kwargs) (cached operator of a previous target / other arguments)")))
     return obs
 
@@ -516,9 +536,11 @@ def interp(repo: Repo) -> List[Ob]:
             return e.slice.value
         return None
 
+    P0 = P
     for cmd, arm in sorted(arms.items()):
         body = arm.body
         key = f"arm:{cmd}"
+        P = P0 + (("C03",) if cmd in ("kron", "m_mult") else ())       # the factor order of a user expression is the operand order (C03)
         if cmd in NARY:
             want, commutative = NARY[cmd]
             # result = interpreter(args[0]); for arg in args[1:]: result = f(result, interpreter(arg))
